@@ -1,16 +1,26 @@
 (* C16 -- Async readers and writers behave exactly like their synchronous counterparts
-   (partial: the BGZF framing layer is modelled and proved; everything above it is compared
-   sync-vs-async on the implementation, see checks/C16.json).
+   (partial: the BGZF layer -- framing, the reader's operations incl. seek, the writer -- and the
+   BAM record framing are modelled and proved; the other format-level async readers and writers
+   are compared sync-vs-async on the implementation, see checks/C16.json).
 
-   Model: NV.Async.Framing -- BlockCodec::decode / decode_eof (with the minimum frame size check
-   and the end-of-input rule of the repaired codec) driven by FramedRead over a source that
-   delivers the file in arbitrary chunks (= an arbitrary poll script), the sync reader's
-   read_frame_into loop, parse_block up to the inflate call, and the block transcript
-   (compressed offset and data length of every non-empty block, final position, ending) that a
-   caller observes through fill_buf / consume / virtual_position / position. *)
+   Models:
+     NV.Async.Framing    BlockCodec::decode / decode_eof under FramedRead over a source that delivers
+                         the file in arbitrary chunks (= an arbitrary poll script), the sync
+                         read_frame_into loop, parse_block up to the inflate call, block transcripts
+     NV.Async.Reader     (module RD below) Inflater + TryBuffered + blocking pool as an instance of
+                         the ticket pipeline NV.Io.Sched; poll_fill_buf / consume / poll_read /
+                         read_exact / read-to-end / seek / seek_by_uncompressed_position; sync side =
+                         C02's NV.Bgzf.ReaderOps
+     NV.Async.Writer     (module WR) staging buffer, lazy flush, Buffer + Deflater pipeline,
+                         shutdown; sync side = C01's NV.Bgzf.Writer
+     NV.Async.ReadExact  (module RX) awaited reads over poll scripts as a C12 reader; tokio
+                         read_exact, bam/bcf read_exact_or_eof, take + read_to_end, BAM record
+                         framing; sync side = C12's NV.Io.Run *)
 From Coq Require Import List Arith NArith Bool.
 From NV Require Bgzf.Vpos Bgzf.Gzi Bgzf.ReaderOps Io.Sched Io.SchedProofs Async.Reader Async.ReaderProofs.
+From NV Require Async.PollSeek Async.PollSeekProofs.
 From NV Require Base.LE Bgzf.Crc32 Bgzf.Frame Bgzf.Writer Async.Writer Async.WriterProofs.
+From NV Require Io.Source Io.ReadExact Io.ReadExactProofs Io.Run Io.RunProofs Async.ReadExact Async.ReadExactProofs.
 From NV Require Import Async.Framing Async.FramingProofs.
 Import ListNotations.
 
@@ -185,6 +195,52 @@ Proof. vm_compute. split; reflexivity. Qed.
 End RD.
 
 (* ============================================================================================
+   The POLLED seek (Reader::poll_seek / Inflater::poll_seek: is_seeking flag, pre-seek
+   poll_complete, start_seek, post-seek poll_complete, buffer clear) -- the path of the async
+   csi / tabix query readers -- over a source whose poll_complete may return Pending at every
+   call, also before start_seek (model: NV.Async.PollSeek).
+   ============================================================================================ *)
+Module PS.
+Import NV.Bgzf.Vpos NV.Bgzf.Gzi NV.Bgzf.ReaderOps NV.Io.Sched NV.Async.Reader NV.Async.ReaderProofs.
+Import NV.Async.PollSeek NV.Async.PollSeekProofs.
+
+(* for EVERY poll script of poll_complete, EVERY offset the source is at and EVERY target: the
+   polled seek leaves the source at the target, no seek in flight, is_seeking cleared *)
+Theorem c16_poll_seek_source_lands :
+  forall (sc : list bool) (pos c : N),
+    infl_seek (S (length sc)) (mkInfl (mkSrc pos None) false) c sc = Some (mkInfl (mkSrc c None) false).
+Proof. intros. apply infl_seek_lands. apply Nat.lt_succ_diag_r. Qed.
+Print Assumptions c16_poll_seek_source_lands.
+
+(* hence the polled seek is `async fn seek`, whatever the poll script *)
+Theorem c16_poll_seek_equals_seek :
+  forall W P sch f s v src_at sc, a_poll_seek W P sch f s v src_at sc = a_seek W P sch f s v.
+Proof. exact poll_seek_equals_seek. Qed.
+Print Assumptions c16_poll_seek_equals_seek.
+
+(* and op histories that use polled seeks (each with its own poll script) equal the sync
+   reader's histories with plain seeks: results and virtual positions after every op *)
+Theorem c16_async_reader_poll_seek_equals_sync :
+  forall (W P : nat) (sch : nat -> list act) (f : file) (idx : gzi_index) (ops : list xop),
+    (0 < W)%nat -> (0 < P)%nat -> Forall (fun b => (flen b <= 65536)%N) f ->
+    a_xrun W P sch f idx (a_init f) ops
+    = ReaderOps.run true f idx (ReaderOps.init f) (map erase ops).
+Proof. intros W P sch f idx ops HW HP Hf. exact (async_reader_with_poll_seek_equals_sync W P sch HW HP f idx ops Hf). Qed.
+Print Assumptions c16_async_reader_poll_seek_equals_sync.
+
+(* the model separates the defect class "success reported, source not moved": with the source
+   left at offset 61 the reader's position after the seek is not the sync reader's *)
+Theorem c16_stale_source_seek_differs :
+  let f := [mkFrame 30 [1; 2; 3]; mkFrame 31 [4; 5; 6; 7]; mkFrame 28 []]%N in
+  let s := a_init f in
+  snd (a_poll_seek 1 1 (fun _ => []) f s (pack 0 0) 61 [true]) = Ok (pack 0 0) /\
+  a_virtual_position (cs (fst (a_poll_seek 1 1 (fun _ => []) f s (pack 0 0) 61 [true]))) = Ok (pack 0 0) /\
+  a_virtual_position (cs (fst (a_seek_at 1 1 (fun _ => []) f s (pack 0 0) 61))) = Ok (pack 28 0).
+Proof. exact stale_source_differs. Qed.
+Print Assumptions c16_stale_source_seek_differs.
+End PS.
+
+(* ============================================================================================
    The async BGZF WRITER (model: NV.Async.Writer -- staging buffer of MAX_BUF_SIZE with its LAZY
    flush, tokio write_all, poll_flush handing Deflate tasks to the bounded Buffer sink, the
    Buffer/Deflater/blocking-pool pipeline as an instance of NV.Io.Sched, poll_shutdown = flush,
@@ -244,7 +300,61 @@ Example c16_writer_example :
   forall fr, w_final (w_run fr 2 2 (a_blocks ops) sched) = true /\
              cs (w_run fr 2 2 (a_blocks ops) sched) = fr [1; 2; 3]%N ++ fr [4; 5; 6]%N ++ fr [7]%N.
 Proof.
-  cbn zeta. split; [vm_compute; reflexivity|]. split; [vm_compute; reflexivity|].
-  intros fr. split; [reflexivity|]. lazy -[app]. rewrite app_nil_l, <- !app_assoc. reflexivity.
+  cbn zeta.
+  assert (Hb : a_blocks [AWriteAll [1; 2; 3]; AFlush; AFlush; AWrite [4]; AWriteAll [5; 6]; AFlush; AWriteAll [7]]%N
+               = [[1; 2; 3]; [4; 5; 6]; [7]]%N) by (vm_compute; reflexivity).
+  split; [exact Hb|]. split; [vm_compute; reflexivity|].
+  intros fr. rewrite Hb. split; [reflexivity|].
+  transitivity ((([] ++ fr [1; 2; 3]) ++ fr [4; 5; 6]) ++ fr [7])%N; [reflexivity|].
+  rewrite app_nil_l, <- app_assoc. reflexivity.
 Qed.
 End WR.
+
+(* ============================================================================================
+   Format-level async record framing: awaited reads over ANY poll script are a reader in the
+   sense of property C12 (NV.Io.ReadExactProofs.simulates), so the read_exact family returns over
+   an async source what it returns over a sync one (model: NV.Async.ReadExact).
+   ============================================================================================ *)
+Module RX.
+Import NV.Io.Source NV.Io.ReadExact NV.Io.ReadExactProofs NV.Io.Run NV.Io.RunProofs.
+Import NV.Async.ReadExact NV.Async.ReadExactProofs.
+
+(* the generic lemma: `reader.read(buf).await` over every poll script (Pending polls, partial
+   transfers of any sizes) behaves like some delivery of the data *)
+Theorem c16_awaited_read_is_a_delivery : simulates aread rep_a.
+Proof. exact aread_simulates. Qed.
+Print Assumptions c16_awaited_read_is_a_delivery.
+
+(* tokio's read_exact over any poll script = std's read_exact over any sync delivery script (incl.
+   Interrupted results): same bytes stored, same outcome (Ok / UnexpectedEof), same data left *)
+Theorem c16_async_read_exact_equals_sync :
+  forall polls (t : source) n,
+    let a := mkASource (s_data t) polls in
+    let '(ab, ax, a') := read_exact aread (a_fuel a n) a n in
+    let '(sb, sx, t') := read_exact src_read (src_fuel t n) t n in
+    ab = sb /\ ax = sx /\ a_data a' = s_data t'.
+Proof. exact async_read_exact_equals_sync. Qed.
+Print Assumptions c16_async_read_exact_equals_sync.
+
+(* the async BAM record framing (noodles-bam async/io/reader/record.rs: read_exact_or_eof on the
+   4 size bytes, then take(block_size).read_to_end with reads of ANY sizes [req], then the length
+   validation) over any poll script yields, record after record, what the sync framing of C12's
+   model (io/reader/record.rs) yields over any sync delivery script: sizes, the clean end (0), and
+   UnexpectedEof for a partial size field / short body / inconsistent lengths *)
+Theorem c16_async_bam_framing_equals_sync :
+  forall polls req (t : source) k,
+    fst (a_bam_read_records aread req a_fuel k (mkASource (s_data t) polls))
+    = fst (bam_read_records k t).
+Proof. exact async_bam_records_equal_sync. Qed.
+Print Assumptions c16_async_bam_framing_equals_sync.
+
+(* non-vacuity: a 33-byte record, then a size field cut after 2 bytes; 1-byte transfers with a
+   Pending before each for the first 9 polls *)
+Example c16_bam_framing_example :
+  let body := (repeat 0 8 ++ [1] ++ repeat 0 23 ++ [65])%N in
+  let data := ([33; 0; 0; 0] ++ body ++ [7; 0])%N in
+  let polls := [PPending; PReady 1; PPending; PReady 1; PPending; PReady 1; PPending; PReady 1; PPending; PReady 3] in
+  fst (a_bam_read_records aread (fun _ => 7) a_fuel 4 (mkASource data polls)) = [RecOk 33; RecUnexpectedEof]
+  /\ fst (bam_read_records 4 (mkSource data [Interrupted; Deliver 2])) = [RecOk 33; RecUnexpectedEof].
+Proof. vm_compute. split; reflexivity. Qed.
+End RX.
